@@ -14,7 +14,7 @@ def run(ck):
     try:
         ck.write_generated("DigestConst.lean", gen_digest.generate(REPO))
     except Exception as e:
-        ck.machinery_error("translator gen_digest failed: %r" % (e,)); return
+        ck.translator_failed("translator gen_digest failed: %r" % (e,))
     if not ck.build_driver(): return
     if not ck.prove():
         ck.report_proof_failure("theorems about the digest model / regenerated constants no longer build")
